@@ -1,5 +1,9 @@
 # Table of claimed / not-applicable properties; MANIFEST.json is generated from it (gen_manifest.py).
 CLAIMED = {
+ "C07": {
+  "text": "Bounded symbolic model checking of the real TxPool.VerifyTransaction (verifyTxChainId, verifyTransactionHash, verifyTransactionSign, verifyETHTx, compareTx) with eth_tx.SignTx/Sender/ConvertTx and the rlp codec, over an ideal-signature model of secp256k1: every honestly signed native or EIP-155 transaction within the bounds is accepted; changing any one authenticated field (hash left or recomputed), the hash, the signature (any single bit, or another signer's), the chain id, or any wrapper field / payload bit of a wrapped Ethereum transaction makes it rejected.",
+  "note": "Trusted: gosym and its models, z3, the ideal signature model standing in for the secp256k1 C library (validated on sampled paths against the real library), hashes as injective functions. Keys are concrete; nonce/type enumerated.",
+ },
  "C08": {
   "text": "Bounded symbolic model checking of the real rlp package (EncodeToBytes/DecodeBytes/Split/Stream through a reflect model): for every byte string up to the stated length and every value of the listed Go types the solver shows round trip, canonicity (accepted input re-encodes to itself), totality (no panic path feasible) and allocation bounds; counterexamples are replayed natively.",
   "note": "Trusted: go/ssa front end, the gosym interpreter and its reflect/sync/big.Int models (validated on every run by executing solver models natively and comparing observations), z3. Inputs longer than the bound and types not listed are outside the claim.",
